@@ -114,7 +114,9 @@ def inline(files, root="a.json", max_depth=40):
 # -------------------------------------------------------------- strategy
 # repeated titles are common (pool of few); "<Title>_<n>" collides with the names that de-duplication hands out
 SAFE_TITLES = ["Widget", "my title", "a1b", "Thing", "widget", "Widget", "Widget_1", "widget_1", "Thing_1", "Widget_2"]
-DESCRIPTIONS = ["plain", 'He said "hi"', "back\\slash", 'trailing"', "two\nlines", "", "日本 é", '"""']
+DESCRIPTIONS = ["plain", 'He said "hi"', "back\\slash", 'trailing"', "two\nlines", "", "日本 é", '"""',
+                "windows\r\nline ends", "bare\rreturn", "tab\there", "form\x0cfeed", "nbsp\u00a0and\u2028separator",
+                "nul\x00char", "trailing backslash\\", "{braces} %s"]
 FILES = ["a.json", "b.json", "c.json"]
 # string literals that end up inside the generated module text: quotes of every kind, names the import
 # inference looks for
